@@ -198,10 +198,21 @@ pub const SANCTIONED: &str = "The file has unclosed comment blocks";
 /// rest of its line). The sanctioned panic is accepted only if this holds.
 pub fn reference_unterminated_block_comment(text: &str) -> bool {
     let mut nest = 0usize;
+    // X.680 12.6: nothing within a cstring starts a comment (and a quotation mark within a comment opens no cstring)
+    let mut in_string = false;
     for line in text.lines() {
         let c: Vec<char> = line.chars().collect();
         let mut i = 0;
         while i < c.len() {
+            if nest == 0 && c[i] == '"' {
+                in_string = !in_string;
+                i += 1;
+                continue;
+            }
+            if in_string {
+                i += 1;
+                continue;
+            }
             if nest == 0 && c[i] == '-' && c.get(i + 1) == Some(&'-') {
                 break;
             }
